@@ -1918,8 +1918,11 @@ func (c *Checker) checkAsExpressionNode(node *ast.AsExpressionNode) *ast.AsExpre
 	node.RuntimeType = c.checkComplexConstantType(node.RuntimeType)
 	runtimeType := c.TypeOf(node.RuntimeType)
 
-	switch runtimeType.(type) {
-	case *types.Class, *types.Mixin:
+	switch rt := runtimeType.(type) {
+	case *types.Class:
+		qualifyAsRuntimeType(node.RuntimeType, rt.Name())
+	case *types.Mixin:
+		qualifyAsRuntimeType(node.RuntimeType, rt.Name())
 	default:
 		c.addFailure(
 			fmt.Sprintf(
@@ -1945,6 +1948,18 @@ func (c *Checker) checkAsExpressionNode(node *ast.AsExpressionNode) *ast.AsExpre
 
 	node.SetType(runtimeType)
 	return node
+}
+
+// The runtime type of an `as` cast is compiled as a constant read.
+// A simple constant has been resolved in the type scopes (eg. `Int` to `Std::Int`),
+// so it has to be read under its fully qualified name at runtime, like any other checked constant.
+func qualifyAsRuntimeType(node ast.ComplexConstantNode, fullName string) {
+	switch n := node.(type) {
+	case *ast.PublicConstantNode:
+		n.Value = fullName
+	case *ast.PrivateConstantNode:
+		n.Value = fullName
+	}
 }
 
 func (c *Checker) checkTryExpressionNode(node *ast.TryExpressionNode) *ast.TryExpressionNode {
